@@ -334,6 +334,10 @@ func (i *InsertStatement) Format(opts FormatOptions) string {
 		sb.WriteString(onConflictSQL(i.OnConflict))
 	}
 
+	if i.OnDuplicateKey != nil {
+		sb.WriteString(onDuplicateKeySQL(i.OnDuplicateKey))
+	}
+
 	if len(i.Returning) > 0 {
 		sb.WriteString(f.clauseSep())
 		sb.WriteString(f.kw("RETURNING"))
